@@ -43,19 +43,17 @@ func refFoldRight(in []int) int {
 	return acc
 }
 
-// a non-commutative monoid on int: decimal concatenation with 0 as the identity.
-func catCombine(a, b int) int {
-	if a == 0 {
-		return b
-	}
-	if b == 0 {
-		return a
-	}
-	m := 1
-	for t := b; t > 0; t /= 10 {
-		m *= 10
-	}
-	return (a*m + b) % 1000000007
+// a lawful non-commutative monoid on int: the polynomial hash of a string, (h, B^len) packed
+// as B^len*hM + h; identity (0,1) = hM. Elements are mapped to single-symbol strings by
+// encSingle (harness glue) before they reach the library, so every value is a packed pair.
+const hM, hB = 1000003, 131
+
+func encSingle(v int) int { return hB*hM + (v+1)%hM }
+
+func catCombine(x, y int) int {
+	hx, px := x%hM, x/hM
+	hy, py := y%hM, y/hM
+	return (px*py%hM)*hM + (hx*py+hy)%hM
 }
 
 type imonoid struct {
@@ -75,15 +73,16 @@ type monoidSpec struct {
 }
 
 var monoids = []monoidSpec{
-	{"concat-digits", catCombine, 0},
-	{"sum", func(a, b int) int { return a + b }, 0},
+	{"string-hash(non-commutative)", catCombine, hM},
+	{"sum", func(a, b int) int { return (a + b) % (hM * hM) }, 0},
 }
 
+// refReduce: left fold from Empty over the encoded elements.
 func refReduce(m monoidSpec) func([]int) string {
 	return func(in []int) string {
 		acc := m.empty
 		for _, v := range in {
-			acc = m.combine(acc, v)
+			acc = m.combine(acc, encSingle(v))
 		}
 		return sprint(acc)
 	}
@@ -509,7 +508,7 @@ var iterTermKinds = []itkind{
 	{"iterator.Reduce", func(x *mc.X, pos int, red bool) iterm {
 		m := monoids[x.Choose(len(monoids), "monoid")]
 		return iterm{label: "Reduce(" + m.name + ")", ref: refReduce(m), run: func(e *env, cb *int, it fp.Iterator[int]) string {
-			return sprint(iterator.Reduce[int](it, imonoid{e, cb, m.combine, m.empty}))
+			return sprint(iterator.Reduce[int](glue(it, encSingle), imonoid{e, cb, m.combine, m.empty}))
 		}}
 	}},
 	simple("iterator.GroupBy", refGroup, func(e *env, cb *int, it fp.Iterator[int]) string {
